@@ -132,6 +132,7 @@ theorem applyFns_fins_congr (fns : List Fn) (a b : Obj) (h : a.fins = b.fins) :
     | allow g => simp [Fn.app, h]
     | userFin add g => cases add <;> simp [Fn.app, h]
     | setStatus k v => simp [Fn.app, h]
+    | appendStatus k v => simp [Fn.app, h]
 
 /-- the merge stage, nobody interfering, on the object the patch was computed for -/
 theorem quiet_merge_stage (sub : Bool) (p : Patch) (orig : Obj) (st : St) (o : Obj)
